@@ -93,7 +93,7 @@ def check_cells(frame, view, stats, what, order=None, fitted=False):
 class C01(core.Check):
     pid = 'C01'
     driver = 'drv_c01'
-    quick_cases = 230
+    quick_cases = 1200
     thorough_cases = 5000
     rule = ('abstract frames of 1-12 rows x 1-8 feature columns (+ optional target: numerical / 1-,2-,3+-class '
             'categorical / timestamp) over numerical, categorical (str and int values), multicategorical (sep-joined '
